@@ -82,8 +82,8 @@ class ScriptedLink:
     `acks(n)` (typically a fresh symbolic boolean per attempt: the fault schedule); an
     acknowledged attempt carries `ackpl(n)` (None or bytes) as ACK payload."""
 
-    def __init__(self, acks, ackpl=None):
-        self.acks, self.ackpl = acks, ackpl
+    def __init__(self, acks, ackpl=None, by_packet=False):
+        self.acks, self.ackpl, self.by_packet = acks, ackpl, by_packet
         self.count = 0  # on-air attempts so far (every attempt gets its own fault variable)
         self.on_air = []
 
@@ -93,6 +93,7 @@ class ScriptedLink:
         self.on_air.append((pkt.uid, attempt, list(pkt.addr), list(pkt.data), pkt.no_ack))
         if pkt.no_ack:
             return None
-        if bool(self.acks(n)):
+        ok = self.acks(n, pkt) if self.by_packet else self.acks(n)
+        if bool(ok):
             return (True, self.ackpl(n) if self.ackpl else None)
         return None
